@@ -111,6 +111,9 @@ func (c chainBridge) Status() (td uint64, currentBlock types.Hash, genesisBlock 
 }
 
 func (c chainBridge) InsertChain(momentums []*nom.DetailedMomentum) (int, error) {
+	if len(momentums) == 0 {
+		return 0, nil
+	}
 	a := momentums[0]
 	b := momentums[len(momentums)-1]
 	log.Info("start inserting chain", "num-momentums", len(momentums), "start-identifier", a.Momentum.Identifier(), "end-identifier", b.Momentum.Identifier())
